@@ -38,6 +38,10 @@ structure Tables where
   exeVarTypeOptional : Bool
   opFallbackAnyName : Bool
   nullVarUsesDefault : Bool
+  symbolBaseEnum : Bool
+  inputDefaultsRaw : Bool
+  objectUnchecked : Bool
+  schemaDuringScan : Bool
   descRaw : Bool
   dirArgWrapperAccepted : Bool
   dupScalarDropped : Bool
